@@ -13,6 +13,7 @@ pub const ASSUME_HIST: &[&str] = &[
     "bounds: histories up to the stated number of operations over at most 6 handles, texts up to the stated size",
 ];
 
+#[allow(dead_code)]
 fn explore(prop: &'static str, tier: Tier, seed: u64, profiles: Vec<(Profile, u32)>, rule: fn(&crate::step::Ctx) -> bool, rule_text: &str) -> Verdict {
     explore_with(&|_m: &mut Merged| {}, prop, tier, seed, profiles, rule, rule_text)
 }
